@@ -56,6 +56,14 @@ Theorem canonical_idempotent_partial : forall ord cf fuel tag l a s,
 Proof. intros ord cf fuel tag l a s OF H. exact (history_canonical_idempotent ord cf fuel tag l a s OF H). Qed.
 Print Assumptions canonical_idempotent_partial.
 
+(** ... and it is the name the executable specification ([spec_canonical], evaluated by the check on the implementation's
+    observations) computes from the list of contributed names *)
+Theorem canonical_is_spec_partial : forall ord cf fuel tag l a s,
+  owner_free_history l -> history_ok ord cf fuel tag l a s ->
+  forall n, In n (map fst l) -> Aggregator.canonical a n = spec_canonical (map fst l) n.
+Proof. intros ord cf fuel tag l a s OF H. exact (history_canonical_is_spec ord cf fuel tag l a s OF H). Qed.
+Print Assumptions canonical_is_spec_partial.
+
 (** one more aggregation leaves the canonical name of every name of another track alone *)
 Theorem other_tracks_untouched_partial : forall ord cf fuel tag l a s name t k a' s',
   owner_free_history l -> history_ok ord cf fuel tag l a s -> owner_free t ->
